@@ -3,10 +3,21 @@
 Correspondence: Lean `VarPipe.render` (with the executable `Ext` instance) vs the real tag on the
 same (spec, value).  Oracle on the implementation: a tainted value never contributes a raw '<'
 (tag-made `<br />` set aside), and html_quote never escapes twice.
+
+Beyond the (spec, value) grid the failing-input search covers
+ * expression results: the tainted value reaches dtml-var as the result of a generated expression (every namespace
+   access form, every taint-keeping operation of the mark, the library's taint-aware `string` module wrapper with
+   every argument-passing convention); the expected text is computed by plain Python on plain strings;
+ * delivery channels and binding contexts of a by-name insertion (keyword, client attribute, mapping, the mapping's
+   taintWrapper() hook, constructor defaults, dtml-let / with / in / if / try, sub-templates, a tag used twice);
+ * histories: the same compiled template rendered first with the equal but unmarked text;
+ * tainted byte strings.
 """
+import html as _html
 import itertools
 import json
 import re
+import string as _string
 
 import common
 import varpipe
@@ -107,21 +118,387 @@ def gen_specs(tier, r):
     n = 6000 if tier == 'quick' else 80000
     fmts = SPECIAL + ['%s', 'x%sx', '%s%%', '[%s]', '', 'upper', 'lower', 'capitalize', '%d']
     for _ in range(n):
-        w = [m for m in MODS if r.random() < 0.25]
-        r.shuffle(w)
-        sp = {'written': w}
-        if r.random() < 0.6:
-            sp['fmt'] = r.choice(fmts)
-        if r.random() < 0.5:
-            sp['size'] = str(r.choice([0, 1, 2, 3, 4, 5, 6, 8, 10, 20, 100]))
-            if r.random() < 0.5:
-                sp['etc'] = r.choice(['...', '', '>>', ' etc'])
-        if r.random() < 0.2:
-            sp['null'] = r.choice(['', 'NULL', 'n/a'])
-        if r.random() < 0.15:
-            sp['missing'] = r.choice(['', 'MISSING'])
-        specs.append(sp)
+        specs.append(rand_spec(r, fmts))
     return specs
+
+
+FMTS = SPECIAL + ['%s', 'x%sx', '%s%%', '[%s]', '', 'upper', 'lower', 'capitalize', '%d']
+
+
+def rand_spec(r, fmts=FMTS):
+    w = [m for m in MODS if r.random() < 0.25]
+    r.shuffle(w)
+    sp = {'written': w}
+    if r.random() < 0.6:
+        sp['fmt'] = r.choice(fmts)
+    if r.random() < 0.5:
+        sp['size'] = str(r.choice([0, 1, 2, 3, 4, 5, 6, 8, 10, 20, 100]))
+        if r.random() < 0.5:
+            sp['etc'] = r.choice(['...', '', '>>', ' etc'])
+    if r.random() < 0.2:
+        sp['null'] = r.choice(['', 'NULL', 'n/a'])
+    if r.random() < 0.15:
+        sp['missing'] = r.choice(['', 'MISSING'])
+    return sp
+
+
+# ---------------------------------------------------------------------------------------------
+# a tainted value as the direct result of an expression
+#
+# An expression is generated as a pair of source texts: the one written into the template and the same computation
+# in plain Python over plain strings (the reference).  Only operations are generated under which the mark is kept
+# by its documented semantics (AccessControl.tainted: wrapped methods and operators keep it, slicing / indexing /
+# replace / split / splitlines / translate re-evaluate it: marked iff the piece still contains '<') or by the
+# library's own taint-aware wrapper of the `string` module (DT_Util.StringModuleWrapper).  No literal and no
+# unmarked operand contains '<' (except p3, whose '<' are all consumed as separators), so every '<' of the
+# reference text is untrusted.
+
+# every way an expression reads x from the namespace; the value comes back unchanged
+X_FORMS = ['x', 'x', 'x', "_['x']", "_.getitem('x',0)", "_.getitem('x',1)", '_.render(x)', '_.test(1,x)',
+           '_.test(0,p,x)', "_.test(x,x,p)", 'o.a', "d['k']", 'l[0]', 'l[-1]', '_.namespace(y=x)[0].y', '_.min(x,x)']
+OPS = ['{e}.upper()', '{e}.lower()', '{e}.capitalize()', '{e}.title()', '{e}.swapcase()',
+       '{e}.strip()', '{e}.lstrip()', '{e}.rstrip()', "{e}.strip('a ')", "{e}.lstrip('a1x')",
+       '{e}.center(12)', '{e}.ljust(9)', '{e}.rjust(9)', '{e}.expandtabs()',
+       "{e}.replace('a', 'q')", "{e}.replace(' ', '_')", "{e}.replace('b', '')", '{e}.translate({{97: 98}})',
+       "{e}.split(' ')[0]", "{e}.split(' ')[-1]", "{e}.split('_')[0]", '{e}.split()[0]',
+       '{e}.splitlines()[0]', '{e}.splitlines()[-1]', "{e}.join(['1', '2'])", '{e}.join([p, p2])',
+       "({e} + 'z')", "('z' + {e})", '({e} + p)', '(p + {e})', '({e} + t2)', '(t2 + {e})',
+       '({e} * 2)', '(2 * {e})', '({e} % ())',
+       '{e}[1:]', '{e}[:3]', '{e}[2:6]', '{e}[-3:]', '{e}[:-1]', '{e}[::-1]', '{e}[::2]', '{e}[0]', '{e}[-1]',
+       '{e}[1]']
+# the taint-aware string-module wrapper: every convention of passing the untrusted text (as the text, as the
+# separator, as both; positional, keyword, mixed, unpacked)
+CAP_OPS = ['{cap}({e})', '{cap}(s={e})', "{cap}({e}, ' ')", "{cap}({e}, sep=' ')", "{cap}(s={e}, sep=' ')",
+           "{cap}(sep=' ', s={e})", '{cap}({e}, sep)', '{cap}({e}, sep=sep)', '{cap}(s={e}, sep=sep)',
+           '{cap}({e}, None)', '{cap}(s={e}, sep=None)', "{cap}(*[{e}])", "{cap}(**{{'s': {e}}})",
+           "{cap}({e}, **{{'sep': ' '}})",
+           '{cap}(p2, {e})', '{cap}(p2, sep={e})', '{cap}(s=p2, sep={e})', '{cap}(sep={e}, s=p2)',
+           "{cap}(p2, **{{'sep': {e}}})",
+           '{cap}({e}, t2)', '{cap}({e}, sep=t2)', '{cap}(s={e}, sep=t2)', '{cap}(p, sep=t2) + {e}',
+           # only the separator is untrusted and it does occur in the (trusted) text p3 = 'one' t2 'two' t2 'three':
+           # the words are re-joined with it, so every '<' of the result is the untrusted one
+           '{cap}(p3, t2)', '{cap}(p3, sep=t2)', '{cap}(s=p3, sep=t2)', '{cap}(sep=t2, s=p3)', '{cap}(*[p3, t2])',
+           "{cap}(p3, **{{'sep': t2}})", "{cap}(**{{'s': p3, 'sep': t2}})"]
+T2S = ['<', ' <', '<>', '< ', 'a<', ' ']
+PLAINS = ['pq', 'p q', '', '7', 'P&q']
+
+
+def string_functions():
+    """the functions of the `string` module the wrapper wraps (Python 3: capwords only)"""
+    import types
+    return [k for k in dir(_string) if not k.startswith('_') and
+            isinstance(getattr(_string, k), (types.FunctionType, types.BuiltinFunctionType))]
+
+
+def gen_expr(r):
+    """-> (expression in the template, the same computation in plain Python)"""
+    if r.random() < 0.85:
+        a, b = r.choice(X_FORMS), 'x'
+    else:
+        a, b = 't2', 't2'
+    for _ in range(r.choice([0, 1, 1, 1, 2, 2, 3])):
+        if len(a) > 120:
+            break
+        if r.random() < 0.45:
+            op = r.choice(CAP_OPS)
+            cap = 'strings.capwords' if r.random() < 0.85 else '_.string.capwords'
+        else:
+            op, cap = r.choice(OPS), ''
+        a, b = op.format(e=a, cap=cap), op.format(e=b, cap='string.capwords')
+    return a, b
+
+
+def plain3(vals):
+    return 'one' + vals['t2'] + 'two' + vals['t2'] + 'three'
+
+
+def expr_env(vals, tainted):
+    from AccessControl.tainted import TaintedString
+    from DocumentTemplate.DT_Util import StringModuleWrapper
+    mk = TaintedString if tainted else str
+    x, t2 = mk(vals['x']), mk(vals['t2'])
+    o = varpipe.Obj('o', True, {})
+    o.a = x
+    return {'x': x, 't2': t2, 'p': vals['p'], 'p2': 'one two', 'p3': plain3(vals), 'sep': ' ', 'o': o, 'd': {'k': x},
+            'l': [x], 'strings': StringModuleWrapper()}
+
+
+def expr_ref(c):
+    """the text the expression denotes, by plain Python on plain strings; None when it raises"""
+    env = {'x': c['vals']['x'], 't2': c['vals']['t2'], 'p': c['vals']['p'], 'p2': 'one two', 'p3': plain3(c['vals']),
+           'sep': ' ', 'string': _string, '__builtins__': {}}
+    try:
+        v = eval(c['ref'], env)
+    except Exception:  # noqa
+        return None
+    return v if isinstance(v, str) else None
+
+
+def run_expr_case(c):
+    try:
+        t = varpipe.template(c['kind'], c['src'])
+    except Exception as e:  # noqa
+        return ('compile-err', type(e).__name__ + ': ' + str(e)[:100])
+    if c.get('twin'):
+        # history: the same compiled template first renders the equal text without the mark
+        try:
+            t(**expr_env(c['vals'], False))
+        except Exception:  # noqa
+            pass
+    try:
+        out = t(**expr_env(c['vals'], True))
+    except Exception as e:  # noqa
+        return ('err', type(e).__name__)
+    if not isinstance(out, str):
+        return ('out-nonstr', repr(out))
+    return ('out', out)
+
+
+def is_simple(spec):
+    return set(spec) == {'written'} and spec['written'] in ([], ['html_quote'])
+
+
+def expr_oracle(c, impl):
+    """-> (failures, known id, class of the case)"""
+    ref = expr_ref(c)
+    if ref is None:
+        return [], None, 'reference-raises'
+    if impl[0] != 'out':
+        return [], None, 'impl-' + impl[0]
+    spec, out = c['spec'], impl[1]
+    if '<' not in ref:
+        # nothing untrusted with '<' is left in the value: only "html_quote escapes once" applies
+        if is_simple(spec):
+            allowed = {_html.escape(ref, True)} if spec['written'] else {ref, _html.escape(ref, True)}
+            if out not in allowed:
+                return ['expression result %r (no "<" left) rendered %r' % (ref, out)], None, 'no-lt-left'
+        return [], None, 'no-lt-left'
+    bad, known = oracle(spec, {'kind': 'str', 's': ref, 't': True}, impl)
+    if is_simple(spec) and out != _html.escape(ref, True) and not bad:
+        bad.append('expression denotes the untrusted text %r: expected %r (escaped once), got %r'
+                   % (ref, _html.escape(ref, True), out))
+    return bad, known, 'tainted-result'
+
+
+def expr_source(spec, syn, e):
+    kind, src = varpipe.tag_source(spec, 'dtml' if syn == 'dtml-short' else syn, True)
+    assert 'expr="x"' in src
+    return kind, src.replace('expr="x"', ('"%s"' if syn == 'dtml-short' else 'expr="%s"') % e, 1)
+
+
+def gen_expr_cases(r, n, positions):
+    cases = []
+    # every argument convention of the string wrapper on the bare variable, option-free: the systematic part
+    systematic = [(op.format(e='x', cap=cap), op.format(e='x', cap='string.capwords'))
+                  for op in CAP_OPS for cap in ('strings.capwords', '_.string.capwords')]
+    systematic += [(f, 'x') for f in X_FORMS] + [(op.format(e='x'), op.format(e='x')) for op in OPS]
+    for i in range(n + len(systematic)):
+        if i < len(systematic):
+            (e, ref), spec = systematic[i], {'written': [] if i % 3 else ['html_quote']}
+        else:
+            e, ref = gen_expr(r)
+            k = r.random()
+            spec = {'written': []} if k < 0.3 else {'written': ['html_quote']} if k < 0.45 else rand_spec(r)
+        v = positions[r.randrange(len(positions))] if r.random() < 0.6 else tainted_values(r, 1)[0]
+        syn = r.choice(['dtml', 'dtml', 'dtml-short', 'ssi', 'epfs'])
+        kind, src = expr_source(spec, syn, e)
+        cases.append({'kind': kind, 'src': src, 'expr': e, 'ref': ref, 'spec': spec, 'syntax': syn,
+                      'vals': {'x': v['s'], 't2': r.choice(T2S), 'p': r.choice(PLAINS)},
+                      'twin': r.random() < 0.4})
+    return cases
+
+
+# ---------------------------------------------------------------------------------------------
+# delivery channels and binding contexts of a by-name (or expr="x") insertion.  The context adds no text of its own
+# (except where noted), so the (spec, value) oracle and the model's answer for (spec, value) apply unchanged.
+
+class Client:
+    def __init__(self, **kw):
+        self.__dict__.update(kw)
+
+
+class RequestLike(dict):
+    """a mapping with the taintWrapper() hook (ZPublisher's request): plain items, marked items in the wrapper"""
+
+    def taintWrapper(self):
+        from AccessControl.tainted import TaintedString
+        return {k: (TaintedString(v) if isinstance(v, str) and '<' in v else v) for k, v in self.items()}
+
+
+# name -> (wrapper of the tag T, name the tag must use (None = x), how the value is handed over)
+CONTEXTS = {
+    'keyword': ('{T}', None, 'kw'),
+    'client': ('{T}', None, 'client'),
+    'mapping': ('{T}', None, 'mapping'),
+    'taintWrapper': ('{T}', None, 'taintwrapper'),
+    'constructor-keyword': ('{T}', None, 'ctor-kw'),
+    'constructor-mapping': ('{T}', None, 'ctor-mapping'),
+    'let-name': ('<dtml-let x=src>{T}</dtml-let>', None, 'src'),
+    'let-expr': ('<dtml-let x="src">{T}</dtml-let>', None, 'src'),
+    'let-two': ('<dtml-let y=src x=y>{T}</dtml-let>', None, 'src'),
+    'with-namespace': ('<dtml-with "_.namespace(x=src)">{T}</dtml-with>', None, 'src'),
+    'with-object': ('<dtml-with o>{T}</dtml-with>', None, 'o'),
+    'with-only': ('<dtml-with o only>{T}</dtml-with>', None, 'o'),
+    'with-mapping': ('<dtml-with d mapping>{T}</dtml-with>', None, 'd'),
+    'in-objects': ('<dtml-in l>{T}</dtml-in>', None, 'l-o'),
+    'in-mappings': ('<dtml-in l mapping>{T}</dtml-in>', None, 'l-d'),
+    'in-item': ('<dtml-in l>{T}</dtml-in>', 'sequence-item', 'l'),
+    'in-prefix': ('<dtml-in l prefix=q>{T}</dtml-in>', 'q_item', 'l'),
+    'in-key': ('<dtml-in l>{T}</dtml-in>', 'sequence-key', 'l-pair'),
+    'in-sorted': ('<dtml-in l sort=x>{T}</dtml-in>', None, 'l-o'),
+    'if-cached': ('<dtml-if x>{T}</dtml-if>', None, 'kw'),
+    'unless-else': ('<dtml-if y>n<dtml-else>{T}</dtml-if>', None, 'kw'),
+    'sub-template': ('<dtml-var sub>', None, 'sub'),
+    'try': ('<dtml-try>{T}<dtml-except>E</dtml-try>', None, 'kw'),           # an exception prints E
+    'twice': ('{T}|{T}', None, 'kw'),                                         # prints the insertion twice
+}
+EPFS_CONTEXTS = ['keyword', 'client', 'mapping', 'taintWrapper', 'constructor-keyword', 'constructor-mapping', 'twice']
+NO_MODEL = ('try', 'twice')
+
+
+def tag_named(spec, syn, by_expr, name):
+    kind, src = varpipe.tag_source(spec, syn, by_expr)
+    if name is None:
+        return kind, src
+    if by_expr:
+        e = name if name.isidentifier() else "_['%s']" % name
+        return kind, src.replace('expr="x"', 'expr="%s"' % e, 1)
+    for head in ('<dtml-var x', '<!--#var x', '%(x'):
+        if src.startswith(head):
+            return kind, head[:-1] + name + src[len(head):]
+    assert syn == 'entity' and src.endswith('-x;'), src
+    return kind, src[:-2] + name + ';'
+
+
+def ctx_source(c):
+    wrap, name, how = CONTEXTS[c['ctx']]
+    kind, tag = tag_named(c['spec'], c['syntax'], c['by_expr'], name)
+    return kind, wrap.replace('{T}', tag), tag, how
+
+
+def ctx_call(kind, src, tag, how, v):
+    """render with the value v handed over the way `how` says"""
+    from DocumentTemplate import HTML, String
+    cls = HTML if kind == 'html' else String
+    if how == 'ctor-kw':
+        return cls(src, x=v)()
+    if how == 'ctor-mapping':
+        return cls(src, {'x': v})()
+    t = varpipe.template(kind, src)
+    if how == 'kw':
+        return t(x=v)
+    if how == 'client':
+        return t(Client(x=v))
+    if how == 'mapping':
+        return t(None, {'x': v})
+    if how == 'taintwrapper':
+        return t(None, RequestLike(x=str(v), other='plain'))
+    if how == 'src':
+        return t(src=v)
+    if how == 'o':
+        return t(o=Client(x=v))
+    if how == 'd':
+        return t(d={'x': v})
+    if how == 'l-o':
+        return t(l=[Client(x=v)])
+    if how == 'l-d':
+        return t(l=[{'x': v}])
+    if how == 'l':
+        return t(l=[v])
+    if how == 'l-pair':
+        return t(l=[(v, 'item')])
+    if how == 'sub':
+        return t(sub=varpipe.template(kind, tag), x=v)
+    raise ValueError(how)
+
+
+def run_ctx_case(c):
+    from AccessControl.tainted import TaintedString
+    try:
+        kind, src, tag, how = ctx_source(c)
+        varpipe.template(kind, src)
+    except Exception as e:  # noqa
+        return ('compile-err', type(e).__name__ + ': ' + str(e)[:100]), c.get('src', '')
+    if c.get('twin') and how != 'taintwrapper':
+        try:
+            ctx_call(kind, src, tag, how, c['value']['s'])
+        except Exception:  # noqa
+            pass
+    try:
+        out = ctx_call(kind, src, tag, how, TaintedString(c['value']['s']))
+    except Exception as e:  # noqa
+        return ('err', type(e).__name__), src
+    if not isinstance(out, str):
+        return ('out-nonstr', repr(out)), src
+    return ('out', out), src
+
+
+def gen_ctx_cases(r, specs, positions, n):
+    names = sorted(CONTEXTS)
+    cases = []
+    for i in range(n):
+        k = r.random()
+        sp = {'written': []} if k < 0.1 else {'written': ['html_quote']} if k < 0.15 else \
+            dict(specs[r.randrange(len(specs))])
+        v = positions[r.randrange(len(positions))] if r.random() < 0.6 else tainted_values(r, 1)[0]
+        ctx = names[i % len(names)]
+        syn = r.choice(['dtml', 'dtml', 'ssi', 'epfs', 'entity'])
+        if syn == 'epfs' and ctx not in EPFS_CONTEXTS:
+            syn = 'dtml'
+        if syn == 'entity':
+            if not sp['written']:
+                syn = 'dtml'
+            else:
+                sp = {'written': sp['written']}
+        by_expr = syn != 'entity' and r.random() < 0.3
+        cases.append({'ctx': ctx, 'spec': sp, 'value': v, 'syntax': syn, 'by_expr': by_expr,
+                      'twin': r.random() < 0.4})
+    return cases
+
+
+def ctx_oracle(c, impl):
+    if impl[0] != 'out':
+        return [], None
+    out = impl[1]
+    if c['ctx'] == 'twice':
+        # T|T: the two insertions must be the same text; one of them is judged (all of it if they differ)
+        mid = len(out) // 2
+        if len(out) % 2 == 1 and out[mid] == '|' and out[:mid] == out[mid + 1:]:
+            return oracle(c['spec'], c['value'], ('out', out[:mid]))
+        return oracle(c['spec'], c['value'], ('out', out.replace('|', '')))
+    return oracle(c['spec'], c['value'], impl)
+
+
+# ---------------------------------------------------------------------------------------------
+# tainted byte strings (AccessControl.tainted.TaintedBytes): the other marked value type
+
+def run_bytes_cases(res):
+    from AccessControl.tainted import TaintedBytes
+    specs = [{'written': []}] + [{'written': [m]} for m in MODS] + \
+        [{'written': [], 'fmt': f} for f in SPECIAL + ['%s', '[%s]', 'upper', 'lower', '']] + \
+        [{'written': [], 'size': '2'}, {'written': ['upper'], 'size': '3', 'etc': ''},
+         {'written': ['html_quote', 'upper']}, {'written': ['url_unquote', 'upper']},
+         {'written': ['thousands_commas', 'lower']}, {'written': ['sql_quote', 'url_unquote_plus']}]
+    for sp in specs:
+        for b in (b'a<b', b'<', b'12<34.5 x', b'1234567.5<', b'a%3C<\r\nb'):
+            for syn in ('dtml', 'epfs', 'entity'):
+                if syn == 'entity' and (not sp['written'] or len(sp) > 1):
+                    continue
+                kind, tag = varpipe.tag_source(sp, syn, False)
+                for src in (tag, '[' + tag + ']'):
+                    res.evaluations += 1
+                    res.count('tainted_bytes')
+                    try:
+                        out = varpipe.template(kind, src)(x=TaintedBytes(b))
+                    except Exception:  # noqa
+                        res.count('tainted_bytes:raises')
+                        continue
+                    text = out.decode('latin-1') if isinstance(out, bytes) else str(out)
+                    res.nt(('bytes', json.dumps(sp, sort_keys=True), repr(b), src))
+                    if raw_lt(sp, None, text) and not requote_combo(sp):
+                        res.oracle_fail.append({'case': {'input_class': 'bytes', 'spec': sp, 'src': src, 'syntax': syn,
+                                                         'value': 'TaintedBytes(%r)' % b, 'bytes': b.decode('latin-1')},
+                                                'what': 'tainted bytes came out with a raw "<": %r' % (out,)})
 
 
 def run(res, tier, have_driver):
@@ -130,7 +507,22 @@ def run(res, tier, have_driver):
                 'method formats, %-formats), size/etc, null/missing; tainted values with "<" at every position '
                 'of 12 base strings (url escapes, digits, newlines, quotes, underscores); dtml/SSI/EPFS/entity '
                 'syntax, by name and by expr; non-trivial = distinct (spec, value) with a tainted value that '
-                'reaches the final stage (no exception, no null/missing shortcut)')
+                'reaches the final stage (no exception, no null/missing shortcut).  '
+                'EXPRESSIONS: the tainted value as the direct result of a generated expression (16 namespace access '
+                'forms: x, _[..], _.getitem, _.render, _.test, attribute / item / list access, _.namespace, _.min; '
+                '45 taint-keeping operations of the mark: wrapped str methods, + * % on either side, slices, '
+                'indexing, replace/split/splitlines/translate/join; the taint-aware string-module wrapper '
+                'DT_Util.StringModuleWrapper (as a namespace object and as _.string) with 30 argument conventions: '
+                'untrusted text as s, as sep, as both, positional / keyword / mixed / *args / **kw), nested up to 3 '
+                'deep, in expr=, "..." shorthand, SSI and %(var expr=)s syntax, option-free, html_quote and random '
+                'specs; expected text = the same computation by plain Python on plain strings, escaped exactly once.  '
+                'CONTEXTS: 24 delivery channels / binding contexts of the insertion (keyword, client attribute, '
+                'mapping, mapping.taintWrapper() hook, constructor keyword / mapping, dtml-let name / expr / chained, '
+                'dtml-with namespace / object / only / mapping, dtml-in objects / mappings / sequence-item / prefix / '
+                'sequence-key / sorted, dtml-if cache, else branch, sub-template, dtml-try, the tag twice), also '
+                'compared with the model.  HISTORIES: 40% of the context and expression cases first render the same '
+                'compiled template with the equal text without the mark.  TaintedBytes through every single modifier '
+                'and special format')
     specs = gen_specs(tier, r)
     positions = all_positions()
     cases = []
@@ -195,6 +587,52 @@ def run(res, tier, have_driver):
     for i in (0, 100, len(cases) // 2, len(cases) - 5):
         res.sample({'spec': cases[i][0], 'value': cases[i][1], 'syntax': cases[i][2],
                     'src': impls[i][1], 'impl': impls[i][0]})
+    # binding contexts / delivery channels / histories of a by-name insertion (their own random stream: the cases
+    # above do not move when these are changed)
+    rc = common.rng('C04-contexts')
+    for c in gen_ctx_cases(rc, specs, positions, 4800 if tier == 'quick' else 40000):
+        impl, src = run_ctx_case(c)
+        c['src'] = src
+        res.evaluations += 1
+        res.count('context=' + c['ctx'])
+        res.count('context_result=' + impl[0])
+        if c['twin']:
+            res.count('history=unmarked-equal-text-first')
+        bad, known = ctx_oracle(c, impl)
+        if known:
+            res.known_hits.setdefault(known, {'spec': c['spec'], 'value': c['value'], 'src': src, 'out': impl[1]})
+            res.count('known:' + known)
+        for f in bad:
+            res.oracle_fail.append({'case': dict(c, input_class='context'), 'what': f})
+        if impl[0] == 'out':
+            res.nt(('ctx', c['ctx'], json.dumps(c['spec'], sort_keys=True), c['value']['s'], c['syntax'], c['by_expr']))
+        if c['ctx'] not in NO_MODEL:
+            cases.append((c['spec'], c['value'], c['syntax'] + '/' + c['ctx'], c['by_expr']))
+            impls.append((impl, src))
+            reqs.append(varpipe.model_req(c['spec'], c['value']))
+    res.sample({'context': c['ctx'], 'spec': c['spec'], 'value': c['value'], 'src': c['src'], 'impl': impl})
+    # tainted values as the result of an expression
+    re_ = common.rng('C04-expressions')
+    res.extra['string_module_functions_wrapped'] = string_functions()
+    for c in gen_expr_cases(re_, 4500 if tier == 'quick' else 40000, positions):
+        impl = run_expr_case(c)
+        res.evaluations += 1
+        res.count('expr_syntax=' + c['syntax'])
+        if 'capwords' in c['expr']:
+            res.count('expr_uses_string_wrapper')
+        if c['twin']:
+            res.count('history=unmarked-equal-text-first')
+        bad, known, cls = expr_oracle(c, impl)
+        res.count('expr:' + cls)
+        if known:
+            res.known_hits.setdefault(known, {'spec': c['spec'], 'value': c['vals'], 'src': c['src'], 'out': impl[1]})
+            res.count('known:' + known)
+        for f in bad:
+            res.oracle_fail.append({'case': dict(c, input_class='expr'), 'what': f})
+        if cls == 'tainted-result':
+            res.nt(('expr', c['src'], json.dumps(c['vals'], sort_keys=True)))
+    res.sample({'expr': c['expr'], 'reference': c['ref'], 'src': c['src'], 'vals': c['vals'], 'impl': impl})
+    run_bytes_cases(res)
     if have_driver:
         resp = common.run_driver(reqs)
         oom = 0
@@ -239,7 +677,30 @@ def replay(path):
     with open(path) as f:
         d = json.load(f)
     c = d['first']['case']
-    impl, src = varpipe.run_impl(c['spec'], c['value'], c.get('syntax', 'dtml'), c.get('by_expr', False))
-    bad, known = oracle(c['spec'], c['value'], impl)
-    print(src, impl, bad, known)
+    if c.get('input_class') == 'expr':
+        impl = run_expr_case(c)
+        bad, known, _ = expr_oracle(c, impl)
+        print(c['src'], c['vals'], 'reference text %r' % (expr_ref(c),), impl, bad, known)
+    elif c.get('input_class') == 'context':
+        impl, src = run_ctx_case(c)
+        bad, known = ctx_oracle(c, impl)
+        print(src, c['ctx'], c['value'], impl, bad, known)
+    elif c.get('input_class') == 'bytes':
+        from AccessControl.tainted import TaintedBytes
+        kind = 'epfs' if c['syntax'] == 'epfs' else 'html'
+        out = varpipe.template(kind, c['src'])(x=TaintedBytes(c['bytes'].encode('latin-1')))
+        text = out.decode('latin-1') if isinstance(out, bytes) else str(out)
+        bad = ['tainted bytes came out with a raw "<": %r' % (out,)] if raw_lt(c['spec'], None, text) else []
+        print(c['src'], c['value'], repr(out), bad)
+    elif 'spec' not in c:
+        from AccessControl.tainted import TaintedString
+        from DocumentTemplate import String
+        txt = eval(c['value'][len('TaintedString('):-1])
+        out = String(c['src'])(x=TaintedString(txt))
+        bad = ['a tainted value came out with a raw "<": %r' % (out,)] if '<' in out else []
+        print(c['src'], c['value'], repr(out), bad)
+    else:
+        impl, src = varpipe.run_impl(c['spec'], c['value'], c.get('syntax', 'dtml'), c.get('by_expr', False))
+        bad, known = oracle(c['spec'], c['value'], impl)
+        print(src, impl, bad, known)
     return 1 if bad else 0
